@@ -232,3 +232,92 @@ Theorem exclusive_upper_refuted :
 Proof.
   exists false, 32, (mkVec 0 0), (mkVec 0 0). repeat split; try reflexivity. vm_compute. discriminate.
 Qed.
+
+(* ---------------------------------------------------------------- context width *)
+
+Lemma land_low_high p w0 k : p < 2 ^ w0 -> N.land p (k * 2 ^ w0) = 0.
+Proof.
+  intros Hp. apply N.bits_inj. intros i. rewrite N.land_spec, N.bits_0.
+  destruct (N.lt_ge_cases i w0) as [L|G].
+  - rewrite N.mul_pow2_bits_low by assumption. apply andb_false_r.
+  - assert (N.testbit p i = false).
+    { destruct (N.eq_dec p 0) as [->|NZ]; [apply N.bits_0|].
+      apply N.bits_above_log2. apply N.log2_lt_pow2; [lia|].
+      eapply N.lt_le_trans; [exact Hp|]. apply N.pow_le_mono_r; lia. }
+    rewrite H. reflexivity.
+Qed.
+
+Lemma lor_fill p w0 w : w0 <= w -> p < 2 ^ w0 ->
+  N.lor p (ones w - ones w0) = p + (2 ^ w - 2 ^ w0).
+Proof.
+  intros Hw Hp. unfold ones.
+  assert (P0 : 0 < 2 ^ w0) by (apply N.neq_0_lt_0, N.pow_nonzero; discriminate).
+  assert (P1 : 2 ^ w0 <= 2 ^ w) by (apply N.pow_le_mono_r; lia).
+  replace (2 ^ w - 1 - (2 ^ w0 - 1)) with (2 ^ w - 2 ^ w0) by lia.
+  assert (E : 2 ^ w - 2 ^ w0 = (2 ^ (w - w0) - 1) * 2 ^ w0).
+  { rewrite N.mul_sub_distr_r, <- N.pow_add_r. replace (w - w0 + w0) with w by lia. lia. }
+  rewrite E. rewrite <- N.lxor_lor by (apply land_low_high; assumption).
+  symmetry. apply N.add_nocarry_lxor. apply land_low_high. assumption.
+Qed.
+
+(* sign extension keeps the two's-complement value *)
+Theorem ext_signed_value w0 w v : 0 < w0 -> w0 <= w -> vp v < 2 ^ w0 ->
+  sval w (vp (ext true w0 w v)) = sval w0 (vp v) /\ vp (ext true w0 w v) < 2 ^ w.
+Proof.
+  intros H0 Hw Hp.
+  assert (P0 : 0 < 2 ^ w0) by (apply N.neq_0_lt_0, N.pow_nonzero; discriminate).
+  assert (P1 : 2 ^ w0 <= 2 ^ w) by (apply N.pow_le_mono_r; lia).
+  unfold ext. destruct (N.leb_spec w w0) as [L|L]; simpl.
+  - assert (w = w0) by lia. subst w. split; [reflexivity|assumption].
+  - destruct (N.eqb_spec w0 0); [lia|]. simpl.
+    assert (Hw0 : 2 ^ w0 = 2 * 2 ^ (w0 - 1)).
+    { rewrite <- N.pow_succ_r'. f_equal. lia. }
+    assert (Hw1 : 2 ^ w = 2 * 2 ^ (w - 1)).
+    { rewrite <- N.pow_succ_r'. f_equal. lia. }
+    assert (P2 : 2 ^ w0 <= 2 ^ (w - 1)) by (apply N.pow_le_mono_r; lia).
+    assert (EZ0 : (2 ^ Z.of_N w0 = Z.of_N (2 ^ w0))%Z) by (rewrite N2Z.inj_pow; reflexivity).
+    assert (EZ1 : (2 ^ Z.of_N w = Z.of_N (2 ^ w))%Z) by (rewrite N2Z.inj_pow; reflexivity).
+    rewrite (testbit_top w0 (vp v)) by assumption.
+    destruct (N.leb_spec (2 ^ (w0 - 1)) (vp v)) as [T|T].
+    + rewrite lor_fill by (try assumption; lia).
+      split; [|lia].
+      rewrite !sval_cases by (try assumption; lia).
+      destruct (N.leb_spec (2 ^ (w - 1)) (vp v + (2 ^ w - 2 ^ w0))); [|lia].
+      destruct (N.leb_spec (2 ^ (w0 - 1)) (vp v)); [|lia].
+      rewrite EZ0, EZ1. lia.
+    + split; [|lia].
+      rewrite !sval_cases by (try assumption; lia).
+      destruct (N.leb_spec (2 ^ (w - 1)) (vp v)); [lia|].
+      destruct (N.leb_spec (2 ^ (w0 - 1)) (vp v)); [lia|]. reflexivity.
+Qed.
+
+(* the comparison context width does not matter (justifies the pairwise reading against a
+   reading that extends all members of the set to one common width, for operands of one
+   signedness class) *)
+Definition wf_tv (x : tv) : Prop := 0 < tw x /\ vp (tval x) < 2 ^ tw x.
+
+Definition rel_at (W : N) (f : Z -> Z -> bool) (a b : tv) : vec :=
+  s_rel (ctx_s a b) W (ext (ctx_s a b) (tw a) W (tval a)) (ext (ctx_s a b) (tw b) W (tval b)) f.
+Definition weq_at (W : N) (a b : tv) : vec :=
+  s_weq (ext (ctx_s a b) (tw a) W (tval a)) (ext (ctx_s a b) (tw b) W (tval b)).
+
+Theorem rel_context_irrelevant W f a b :
+  wf_tv a -> wf_tv b -> ctx_w a b <= W -> rel_at W f a b = sv_rel f a b.
+Proof.
+  intros [Ha0 Ha] [Hb0 Hb] HW. unfold rel_at, sv_rel, opnd, s_rel. rewrite !known_ext.
+  destruct (known (tval a) && known (tval b)); [|reflexivity].
+  unfold ctx_w in *.
+  destruct (ctx_s a b).
+  - destruct (ext_signed_value (tw a) W (tval a)) as [E1 _]; try assumption; try lia.
+    destruct (ext_signed_value (tw b) W (tval b)) as [E2 _]; try assumption; try lia.
+    destruct (ext_signed_value (tw a) (N.max (tw a) (tw b)) (tval a)) as [E3 _]; try assumption; try lia.
+    destruct (ext_signed_value (tw b) (N.max (tw a) (tw b)) (tval b)) as [E4 _]; try assumption; try lia.
+    rewrite E1, E2, E3, E4. reflexivity.
+  - unfold ext. simpl. rewrite !orb_true_r. reflexivity.
+Qed.
+
+Theorem weq_context_irrelevant_unsigned W a b :
+  ctx_s a b = false -> weq_at W a b = sv_weq a b.
+Proof.
+  intros H. unfold weq_at, sv_weq, opnd. rewrite H. unfold ext. simpl. rewrite !orb_true_r. reflexivity.
+Qed.
